@@ -49,6 +49,7 @@ def run(F, R, tier):
         spec = json.load(f)
     c = F.crate(CR)
     ctx = {}
+    PE.INLINE = helper_bodies(c)
     r05_1(c, R, spec, ctx)
     r05_2_3(c, R, spec, ctx)
     r05_4(c, R, spec, ctx)
@@ -89,6 +90,12 @@ class PE(U.PathEval):
     (arms in any order, `Ok`/`Err(e) => return Err(..)` alike), `if e.is_none() { bail!(..) } .. e.unwrap()`.  On a symbolic `e` the term is
     marked `tried`, p is bound to (projections of) the term itself, and the guard is recorded; on a concrete None/Err the error exit is taken
     and a `refuted` event remembers which expression was None."""
+
+    INLINE = {}
+
+    def __init__(self, **kw):
+        kw.setdefault("inline", PE.INLINE)
+        super().__init__(**kw)
 
     def as_try(self, v, node):
         if U.kind_of(v) == "call" and v[4] in self.by_nid:
@@ -193,6 +200,22 @@ class PE(U.PathEval):
                         self.as_try(args[0], n)
                         return args[0]
         return super().call(n, c, args, env)
+
+
+def helper_bodies(c):
+    """Functions of the version_graph module that the anchored functions may delegate to (an extracted private helper is evaluated as
+    the code it contains): every fn / inherent method of the module except the anchored ones themselves and trait impls (derives)."""
+    resolve = c.fn("resolve", impl_ty=VG)
+    keep_out = set(b["key"] for b in (resolve, c.fn("get", impl_ty=VG), c.fn("apply_diffs", impl_ty=VG), c.fn("new", impl_ty="version_graph::NodeData"),
+                                      find_add_node(c, resolve) if resolve else None) if b)
+    out = {}
+    for b in c.bodies:
+        if not b["key"].startswith(CR + "::version_graph::") or b["key"] in keep_out or not b.get("name"):
+            continue
+        if b.get("params") is None or not isinstance(b.get("body"), dict) or b.get("impl_trait") or b.get("impl_trait_path"):
+            continue
+        out[b["key"]] = b
+    return out
 
 
 def same(a, b):
